@@ -36,6 +36,10 @@ Errors(r) ==
                      \cup (IF r.alias_in_eeprom.result = "ok" /\ r.alias_in_eeprom.value # c.alias
                            THEN {<<"AliasNotStored", r.alias_in_eeprom.value>>} ELSE {})
              ELSE {})
+       \* whatever the outcome, the alias reported afterwards is one the device holds or held: never one that was not stored
+       \cup (IF r.result \notin {"panic", "hang", "budget"} /\ "eeprom_before" \in DOMAIN r /\ "alias_reported" \in DOMAIN r
+                /\ r.alias_reported \notin {r.eeprom_before[9] + 256 * r.eeprom_before[10], r.eeprom_after[9] + 256 * r.eeprom_after[10]}
+             THEN {<<"ReportedAliasNeverStored", r.alias_reported, r.eeprom_after[9] + 256 * r.eeprom_after[10]>>} ELSE {})
        \cup (IF r.result = "ok" /\ k > RetryBound THEN {<<"GaveUpSilently", k>>} ELSE {})
        \cup (IF r.result = "ok" /\ "extra_writes" \in DOMAIN c /\ "extra_writes" \in DOMAIN r /\ k = 0
              THEN UNION { LET w == c.extra_writes[i]
